@@ -39,12 +39,14 @@ func c14ksHash(r *vfRand) mh.Multihash {
 }
 
 type c14ksCase struct {
-	kind    string // "ks" | "rks" | "rksf"
-	ctor    string // "" | failure point
-	ops     []string
-	closeAt int
-	conc2   bool
-	strat   int
+	kind       string // "ks" | "rks" | "rksf"
+	ctor       string // "" | failure point
+	ops        []string
+	closeAt    int
+	closeOp1   int // >0: Close follows the start of operation closeOp1-1 by closeDelay steps
+	closeDelay int
+	conc2      bool
+	strat      int
 }
 
 // c14ksRun runs one case inside a bubble and returns its trace and the plan.
@@ -111,7 +113,7 @@ func c14ksRun(r *vfRand, c *c14ksCase, tr *zzc14.Trace) (plan *zzc14.Plan, note 
 		return nil, "constructor panicked"
 	}
 	tr.Ctor(err == nil)
-	plan = &zzc14.Plan{Gate: gate, UseWait: true, CloseAt: c.closeAt, Concurrent2: c.conc2, MaxSteps: 600}
+	plan = &zzc14.Plan{Gate: gate, UseWait: true, CloseAt: c.closeAt, CloseOp1: c.closeOp1, CloseDelay: c.closeDelay, Concurrent2: c.conc2, MaxSteps: 600}
 	if err != nil {
 		// nothing to close: the bubble must end clean
 		plan.Run(tr)
@@ -272,6 +274,9 @@ func c14ksGen(r *vfRand, i int) *c14ksCase {
 		c.closeAt = r.Intn(4 + 6*len(c.ops))
 	}
 	c.conc2 = r.Chance(35)
+	if len(c.ops) > 0 && r.Chance(55) {
+		c.closeOp1, c.closeDelay = 1+r.Intn(len(c.ops)), 1+r.Intn(4)
+	}
 	return c
 }
 
@@ -281,35 +286,36 @@ func TestVerifC14Keystore(t *testing.T) {
 	zzc14.StartClock()
 	seed := vfSeed()
 	n := vfEnvInt("VERIF_N", 100)
-	only := vfOnly()
+	only := zzc14.Only(3, vfOnly())
 	cs := vfNewCases("Run_C14", 50)
-	cur := -1
+	curComp, curDesc := "CKeystore", map[string]any{}
 	zzc14.OnHang(func(label, stacks string) {
-		cs.Fail(cur, "the case never settled (goroutines blocked outside synctest's view): "+label, stacks)
+		idx := cs.Add(zzc14.HangTerm(curComp), curDesc, "hang")
+		cs.Fail(idx, "the case never settled (goroutines blocked outside synctest's view): "+label, stacks)
 		_ = cs.Flush()
 	})
 	root := vfNewRand(seed)
 	for i := 0; i < n; i++ {
 		r := root.Fork()
-		if only >= 0 && i != only {
+		if only != -1 && i != only {
 			continue
 		}
 		c := c14ksGen(r, i)
+		comp := "CKeystore"
+		if c.kind != "ks" {
+			comp = "CResettable"
+		}
+		curComp, curDesc = comp, map[string]any{"case": zzc14.CaseID(3, i), "seed": seed, "pkg": "provider/keystore", "comp": c.kind, "ops": c.ops, "closeAt": c.closeAt}
 		tr := &zzc14.Trace{}
 		var plan *zzc14.Plan
 		var note string
-		cur = len(cs.coq)
 		leak := zzc14.Bubble(t, fmt.Sprintf("keystore case %d", i), func(t *testing.T) { plan, note = c14ksRun(r.Fork(), c, tr) })
 		if leak != "" {
 			tr.MarkLeak()
 		}
 		tr.EnsureEnd(0)
-		comp := "CKeystore"
-		if c.kind != "ks" {
-			comp = "CResettable"
-		}
 		cfg := map[string]int{"ks": 0, "rks": 1, "rksf": 2}[c.kind]
-		desc := map[string]any{"case": i, "seed": seed, "pkg": "provider/keystore", "comp": c.kind, "ctor": c.ctor, "ops": c.ops, "closeAt": c.closeAt,
+		desc := map[string]any{"case": zzc14.CaseID(3, i), "seed": seed, "pkg": "provider/keystore", "comp": c.kind, "ctor": c.ctor, "ops": c.ops, "closeAt": c.closeAt, "closeOp1": c.closeOp1, "closeDelay": c.closeDelay,
 			"concurrent2": c.conc2, "strategy": c.strat, "trace": tr.Snapshot(), "bubble": leak, "note": note}
 		var results []string
 		if plan != nil {
